@@ -454,6 +454,7 @@ def get_gpytorch_model_w_known_hyperparams(
     model.update()
     model.train()
     model.clear_data()
+    model.update()  # Condition on the (now empty) data, not on the training points.
 
     # TODO: Initial sampling should be done outside of here. Can be a utility function.
     if initial_sample_cnt > 0:
@@ -811,6 +812,7 @@ def get_gpytorch_modellist_w_known_hyperparams(
     model.update()
     model.train()
     model.clear_data()
+    model.update()  # Condition on the (now empty) data, not on the training points.
 
     # TODO: Initial sampling should be done outside of here. Can be a utility function.
     if initial_sample_cnt > 0:
